@@ -23,6 +23,12 @@ HARNESSES = [
     out_of_claim='semantic diagnostics raised on parser-built ASTs; line-number accuracy; numbers above 255',
     timeout={'quick': 300, 'thorough': 1800}) for m in (0, 1, 2, 3) for c in range(6)
 ]
+HARNESSES += [
+  H('lexsite_encoded_string', 'c', 'harness/C06/h_lexact.c', tracked=['src/express/lexact.c'], cflags=['-I/repo'], models=['lib/cmodels/printf_null.c'],
+    defs={'quick': {'KERNEL': 4, 'NB': 6}, 'thorough': {'KERNEL': 4, 'NB': 10}}, unwind={'quick': 10, 'thorough': 14},
+    bounds='call sites of the lexical diagnostics in SCANprocess_encoded_string: every byte string of <= 6 (10) bytes; the reporter is a stub recording (code, line, argument)',
+    stubs=['ERRORreport_with_line: records its arguments'], out_of_claim='other lexer call sites (scanner rules in expscan.l)'),
+]
 JOBS = 12
 MANIFEST = {
   'level_text': 'Bounded model checking of the real error.c: for every argument string/char/count within the bounds, each lexical diagnostic raised through ERRORreport_with_line and the resolver-path control prints exactly "<file>:<line>: --ERROR PE<nnn>: <message quoting the offending text>", and ERRORset_warning/ERRORset_all_warnings change only the named warning class and can never disable an ERROR-class diagnostic (so -w/-i cannot change a verdict). Kernel level: the composition into a whole check-express run is not encoded.',
